@@ -53,6 +53,7 @@ type Ctx struct {
 	modFuncs []*ssa.Function // all functions of module packages (incl. anonymous), sorted by position
 	goarch   string
 	eff      *effAnalysis
+	reg      *registry
 }
 
 func (c *Ctx) load() {
